@@ -356,3 +356,50 @@ def c03g(ctx):
                 break
         ctx.check(n > 0 and not bad, '%s:clip-form' % fn.short, 'lower bounds (indices 0, 1) are raised with max / >, upper bounds (2, 3) lowered with min / <, same index on both sides (%d comparisons)' % n,
                   fn, fail='rectangle clipping in %s: %s' % (fn.short, '; '.join(bad) or 'no min/max clipping found'))
+
+
+def _plumbing(ctx, label, caller, callee_name, callee, exempt=()):
+    """every parameter of `callee` that the caller could supply is supplied: the call passes it (by keyword or position) and the
+    passed value is not a constant when the caller has a same-named parameter/local that carries the configured value"""
+    calls = [x for x in caller.walk() if is_call(x, callee_name)]
+    if not calls:
+        ctx.bad('%s:call' % label, 'no call of %s found' % callee_name, caller)
+        return
+    defs = Defs(caller.node)
+    a = callee.node.args
+    params = [p.arg for p in a.args if p.arg != 'self'] + [p.arg for p in a.kwonlyargs]
+    have = set(caller.params) | set(defs.defs)
+    for x in sorted(calls, key=lambda c: len(c.keywords) + len(c.args))[-1:]:
+        passed = {k.arg: k.value for k in x.keywords if k.arg}
+        for i, v in enumerate(x.args):
+            if i < len(params):
+                passed.setdefault(params[i], v)
+        for p in params:
+            if p in exempt or p not in have:
+                continue
+            v = passed.get(p)
+            ok = v is not None and depends(v, lambda y, p=p: isinstance(y, ast.Name) and y.id == p, defs)
+            ctx.check(ok, '%s:%s-passed-on' % (label, p), '%s receives %s from the caller\'s %s' % (callee_name, p, p), caller, x,
+                      fail='%s is configured (parameter/local of %s) but not handed to %s: the default of %s silently replaces the configured value'
+                           % (p, caller.short, callee_name, callee_name))
+
+
+@rule('C03.h', floor=8)
+def c03h(ctx):
+    """the grid that is built is the grid that was configured: every setting the factory / the configuration loader holds for the
+    grid (stretch factor, shrink factor, threshold resolutions, origin, tile size ...) is handed on to the constructor, so that
+    level selection and tile geometry follow the configuration"""
+    tg = ctx.fn(G + ':tile_grid')
+    init = ctx.fn(G + ':TileGrid.__init__')
+    _plumbing(ctx, 'tile_grid->TileGrid', tg, 'TileGrid', init)
+    ld = ctx.fn('mapproxy/config/loader.py:GridConfiguration.tile_grid')
+    _plumbing(ctx, 'GridConfiguration.tile_grid->tile_grid', ld, 'tile_grid', tg)
+    # settings read from the configuration mapping by name
+    calls = [x for x in ld.walk() if is_call(x, 'tile_grid') and x.keywords]
+    if calls:
+        x = sorted(calls, key=lambda c: len(c.keywords))[-1]
+        for k in x.keywords:
+            if k.arg in ('srs', 'min_res', 'max_res', 'res', 'res_factor', 'threshold_res', 'bbox', 'bbox_srs', 'num_levels', 'origin', 'name'):
+                ok = contains(k.value, lambda y: isinstance(y, ast.Constant) and y.value == k.arg)
+                ctx.check(ok, 'GridConfiguration.tile_grid:%s-from-conf' % k.arg, 'tile_grid(%s=...) is read from the grid configuration key %r' % (k.arg, k.arg), ld, x,
+                          fail='tile_grid(%s=%s) is not the configured %r' % (k.arg, unparse(k.value)[:40], k.arg))
